@@ -152,7 +152,7 @@ func runGated(key string, qa, qb reqSpec, ownA, ownB, where string) (res cellRes
 // half-written response), parks, B (kind KindB) is served to completion, A answers from
 // its state.
 
-var localKinds = []string{"exc", "rexc", "iexc", "uexc", "excmsg", "catch", "obj", "arr", "clo", "loop", "func", "method", "resp", "mw-obj", "mw-loop", "mw-resp"}
+var localKinds = []string{"exc", "rexc", "iexc", "uexc", "excmsg", "catch", "obj", "arr", "clo", "loop", "func", "method", "resp", "mw-obj", "mw-loop", "mw-resp", "capl", "cap"}
 
 type localCell struct{ KindA, KindB string }
 
@@ -181,6 +181,11 @@ func runLocalCell(c localCell, idx int) cellResult {
 		server := "lgate"
 		if k, ok := strings.CutPrefix(kind, "mw-"); ok {
 			server, kind = "lgatemw", k // behind a closure and a class middleware
+		}
+		if kind == "cap" {
+			// shape 7: by-value captures of handler, middleware and helper closure; the handler
+			// parks between its writes to the captured arrays/scalars
+			return stdRequest("cap", "s7", "/s7", method, own, 3, [2]string{"X-Gate-Name", gate})
 		}
 		return stdRequest(server, "lgate", "/lgate", method, own, 2, [2]string{"X-Kind", kind}, [2]string{"X-Gate-Name", gate})
 	}
@@ -219,9 +224,13 @@ func allGateCells() []gateCell {
 type seqCell struct {
 	Src   string
 	Throw bool
+	Cap   int // > 0: by-value capture cell (shape 7 with n = Cap-1 instead of a source read)
 }
 
 func (c seqCell) key() string {
+	if c.Cap > 0 {
+		return fmt.Sprintf("seq/by-value-capture/n=%d", c.Cap-1)
+	}
 	k := "seq/src=" + sourceByCode(c.Src).Name
 	if c.Throw {
 		k += "/throw"
@@ -235,10 +244,13 @@ func runSeqCell(c seqCell, idx int) (res cellResult) {
 	if idx%2 == 1 {
 		method = "GET"
 	}
-	if c.Src == "pfv" {
+	if c.Cap == 0 && c.Src == "pfv" {
 		method = "POST"
 	}
 	mk := func(owner string) reqSpec {
+		if c.Cap > 0 {
+			return stdRequest("cap", "s7", "/s7", method, owner, c.Cap-1)
+		}
 		x := [][2]string{{"X-Src", c.Src}}
 		if c.Throw {
 			x = append(x, [2]string{"X-Throw", "1"})
@@ -264,6 +276,9 @@ func runSeqCell(c seqCell, idx int) (res cellResult) {
 		}
 		for _, d := range foreignFields(b, own[i]) {
 			key := "seq/" + seqLayer(d.Field) + strings.TrimPrefix(res.Key, "seq") + "/foreign-when-alone"
+			if c.Cap > 0 {
+				key = res.Key + "/" + d.Field + "/foreign-when-alone"
+			}
 			res.Mism = append(res.Mism, mismatch{Key: key, What: fmt.Sprintf("%s served ALONE on a fresh server answers %s = %q, which belongs to an earlier request %v of this process", q, d.Field, clip(d.Got, 120), d.Foreign)})
 		}
 	}
@@ -278,6 +293,9 @@ func runSeqCell(c seqCell, idx int) (res cellResult) {
 		got := w.serve(qs[i])
 		for _, d := range diffObservation(got, base[i], own[i]) {
 			key := "seq/" + seqLayer(d.Field) + strings.TrimPrefix(res.Key, "seq") + "/" + d.Kind
+			if c.Cap > 0 {
+				key = res.Key + "/" + d.Field + "/" + d.Kind
+			}
 			if seen[key] {
 				continue
 			}
@@ -315,7 +333,10 @@ func seqLayer(field string) string {
 func allSeqCells() []seqCell {
 	var out []seqCell
 	for _, s := range sources {
-		out = append(out, seqCell{s.Code, false}, seqCell{s.Code, true})
+		out = append(out, seqCell{Src: s.Code}, seqCell{Src: s.Code, Throw: true})
+	}
+	for n := 0; n <= 5; n++ {
+		out = append(out, seqCell{Cap: n + 1})
 	}
 	return out
 }
